@@ -491,6 +491,198 @@ theorem iterSet_ok {rc : Attr} {d cd : Side} (hrc : sch.side rc = some d) (hd : 
       · exact hal
       · have := ihA j hj; rw [hF1.alive] at this; exact this
 
+/-- loop C: `Set.reverse_remove(attr=rc, objects=items, item=o)` -/
+theorem reverseRemove_ok {rc : Attr} {d : Side} (hrc : sch.side rc = some d) (hd : d.isColl = true) (o : ObjId) :
+    ∀ (items : List ObjId) (st st' : St), reverseRemove rc items o st = .ok st' →
+      (∀ p b q, hasB sch st'.store p b q = true ↔ hasB sch st.store p b q = true ∧ ¬ (b = rc ∧ q = o ∧ p ∈ items)) ∧
+      st'.store.ref = st.store.ref ∧
+      Frame st.store st'.store ∧
+      (∀ p b q, st'.store.mem p b q = true → st.store.mem p b q = true) ∧
+      (∀ i ∈ items, st.store.mem i rc o = true) := by
+  intro items
+  induction items with
+  | nil => intro st st' h; simp [reverseRemove] at h; cases h; simp [Frame.refl]
+  | cons i rest ih =>
+    intro st st' h
+    obtain ⟨st1, h1, h2⟩ := iter_cons_ok h
+    obtain ⟨hm, hs1⟩ := reverseRemove1_ok h1
+    obtain ⟨ihH, ihR, ihF, ihM, ihA⟩ := ih st1 st' h2
+    have hF1 : Frame st.store st1.store := hs1 ▸ ⟨rfl, rfl, rfl⟩
+    refine ⟨?_, ?_, Frame.trans hF1 ihF, ?_, ?_⟩
+    · intro p b q
+      rw [ihH, hs1, hasB_setMem hrc hd]
+      simp only [List.mem_cons]
+      grind
+    · rw [ihR, hs1]; rfl
+    · intro p b q hm'
+      have := ihM p b q hm'
+      rw [hs1] at this
+      simp only [Store.setMem] at this
+      split at this <;> simp_all
+    · intro j hj
+      rcases List.mem_cons.mp hj with rfl | hj
+      · exact hm
+      · have := ihA j hj
+        rw [hs1] at this
+        simp only [Store.setMem] at this
+        split at this <;> simp_all
+
+/-- loop D: `Set.reverse_add(attr=rc, objects=items, item=o)` -/
+theorem reverseAdd_ok {rc : Attr} {d : Side} (hrc : sch.side rc = some d) (hd : d.isColl = true) (o : ObjId) :
+    ∀ (items : List ObjId) (st st' : St), reverseAdd rc items o st = .ok st' →
+      (∀ p b q, hasB sch st'.store p b q = true ↔ hasB sch st.store p b q = true ∨ (b = rc ∧ q = o ∧ p ∈ items)) ∧
+      st'.store.ref = st.store.ref ∧
+      Frame st.store st'.store ∧
+      (∀ p b q, st'.store.mem p b q = true → st.store.mem p b q = true ∨ (b = rc ∧ q = o ∧ p ∈ items)) ∧
+      (∀ i ∈ items, st.store.mem i rc o = false) := by
+  intro items
+  induction items with
+  | nil => intro st st' h; simp [reverseAdd] at h; cases h; simp [Frame.refl]
+  | cons i rest ih =>
+    intro st st' h
+    obtain ⟨st1, h1, h2⟩ := iter_cons_ok h
+    obtain ⟨hm, hs1⟩ := reverseAdd1_ok h1
+    obtain ⟨ihH, ihR, ihF, ihM, ihA⟩ := ih st1 st' h2
+    have hF1 : Frame st.store st1.store := hs1 ▸ ⟨rfl, rfl, rfl⟩
+    refine ⟨?_, ?_, Frame.trans hF1 ihF, ?_, ?_⟩
+    · intro p b q
+      rw [ihH, hs1, hasB_setMem hrc hd]
+      simp only [List.mem_cons]
+      grind
+    · rw [ihR, hs1]; rfl
+    · intro p b q hm'
+      rcases ihM p b q hm' with h' | h'
+      · rw [hs1] at h'
+        simp only [Store.setMem] at h'
+        simp only [List.mem_cons]
+        split at h' <;> grind
+      · simp only [List.mem_cons]; grind
+    · intro j hj
+      rcases List.mem_cons.mp hj with rfl | hj
+      · exact hm
+      · have := ihA j hj
+        rw [hs1] at this
+        simp only [Store.setMem] at this
+        split at this <;> simp_all
+
 end loops
+
+
+/-! ## Removal-only steps (everything `delete` does) -/
+
+/-- `s'` arises from `s` by removals only: references are kept or cleared, collections shrink, objects die -/
+structure Sub (s s' : Store) : Prop where
+  n : s'.n = s.n
+  ent : s'.ent = s.ent
+  alive : ∀ p, s'.alive p = true → s.alive p = true
+  ref : ∀ p b, s'.ref p b = s.ref p b ∨ s'.ref p b = none
+  mem : ∀ p b q, s'.mem p b q = true → s.mem p b q = true
+
+theorem Sub.refl (s : Store) : Sub s s := ⟨rfl, rfl, fun _ h => h, fun _ _ => Or.inl rfl, fun _ _ _ h => h⟩
+
+theorem Sub.trans {s s1 s2 : Store} (h1 : Sub s s1) (h2 : Sub s1 s2) : Sub s s2 where
+  n := h2.n.trans h1.n
+  ent := h2.ent.trans h1.ent
+  alive p h := h1.alive p (h2.alive p h)
+  ref p b := by
+    rcases h2.ref p b with e | e
+    · rw [e]; exact h1.ref p b
+    · exact Or.inr e
+  mem p b q h := h1.mem p b q (h2.mem p b q h)
+
+theorem Sub.range {s s' : Store} (h : Sub s s') (hR : Range s) : Range s' := by
+  refine ⟨?_, ?_⟩
+  · intro o a x ho hx
+    rw [h.n] at ho ⊢
+    rcases h.ref o a with e | e
+    · rw [e] at hx; exact hR.1 o a x ho hx
+    · rw [e] at hx; cases hx
+  · intro o a x ho hx
+    rw [h.n] at ho ⊢
+    exact hR.2 o a x ho (h.mem o a x hx)
+
+theorem Sub.has {sch : Schema} {s s' : Store} (h : Sub s s') {p : ObjId} {b : Attr} {q : ObjId}
+    (hh : hasB sch s' p b q = true) : hasB sch s p b q = true := by
+  unfold hasB at hh ⊢
+  cases hb : sch.side b with
+  | none => simp [hb] at hh
+  | some d =>
+    simp only [hb] at hh ⊢
+    split at hh
+    · rename_i hc; simp only [hc, if_true]; exact h.mem p b q hh
+    · rename_i hc; simp only [hc]
+      rcases h.ref p b with e | e
+      · rw [e] at hh; simpa using hh
+      · rw [e] at hh; simp at hh
+
+theorem Frame.sub {s s' : Store} (hF : Frame s s') (hr : ∀ p b, s'.ref p b = s.ref p b ∨ s'.ref p b = none)
+    (hm : ∀ p b q, s'.mem p b q = true → s.mem p b q = true) : Sub s s' :=
+  ⟨hF.n, hF.ent, fun p h => by rw [hF.alive] at h; exact h, hr, hm⟩
+
+/-- a reference is cleared only because its target died (or is being deleted: `P`) -/
+def Cleared (P : ObjId → Prop) (s s' : Store) : Prop :=
+  ∀ q b w, s.ref q b = some w → s'.ref q b = some w ∨ (s'.ref q b = none ∧ (s'.alive w = false ∨ P w))
+
+theorem Cleared.refl (P : ObjId → Prop) (s : Store) : Cleared P s s := fun _ _ _ h => Or.inl h
+
+theorem Cleared.trans {P : ObjId → Prop} {s s1 s2 : Store} (h1 : Cleared P s s1) (h2 : Cleared P s1 s2) (hs : Sub s1 s2) :
+    Cleared P s s2 := by
+  intro q b w hw
+  rcases h1 q b w hw with e | ⟨e, hd⟩
+  · exact h2 q b w e
+  · right
+    refine ⟨?_, ?_⟩
+    · rcases hs.ref q b with e' | e'
+      · rw [e', e]
+      · exact e'
+    · rcases hd with hd | hd
+      · left
+        cases hal : s2.alive w with
+        | false => rfl
+        | true => rw [hs.alive w hal] at hd; cases hd
+      · exact Or.inr hd
+
+theorem Cleared.mono {P Q : ObjId → Prop} {s s' : Store} (h : Cleared P s s') (hPQ : ∀ x, P x → Q x) : Cleared Q s s' := by
+  intro q b w hw
+  rcases h q b w hw with e | ⟨e, hd⟩
+  · exact Or.inl e
+  · exact Or.inr ⟨e, hd.imp id (hPQ w)⟩
+
+/-- `Agree` while some calls are in progress: the REFERENCE cells `(p, b)` in `E` may be stale (their mirror is already gone) -/
+def D (sch : Schema) (s : Store) (E : ObjId → Attr → Prop) : Prop :=
+  ∀ p b q, p < s.n → s.alive p = true → hasB sch s p b q = true →
+    hasB sch s q (sch.rev b) p = true ∨ (E p b ∧ sch.isCollAttr b = false)
+
+theorem D_false_iff {sch : Schema} {s : Store} : D sch s (fun _ _ => False) ↔ Agree sch s := by
+  constructor
+  · intro h p b q hp hal hh
+    rcases h p b q hp hal hh with h' | ⟨h', _⟩
+    · exact h'
+    · exact absurd h' id
+  · intro h p b q hp hal hh
+    exact Or.inl (h p b q hp hal hh)
+
+theorem D.mono {sch : Schema} {s : Store} {E F : ObjId → Attr → Prop} (h : D sch s E) (hEF : ∀ x b, E x b → F x b) : D sch s F := by
+  intro p b q hp hal hh
+  rcases h p b q hp hal hh with h' | ⟨h', hb⟩
+  · exact Or.inl h'
+  · exact Or.inr ⟨hEF p b h', hb⟩
+
+/-- what the callers need to know about `Entity._delete_` (`E`: stale cells tolerated, `P`: objects whose deletion is in progress) -/
+def DelSpec (sch : Schema) (del : ObjId → St → Res) : Prop :=
+  ∀ (x : ObjId) (st st' : St) (E : ObjId → Attr → Prop) (P : ObjId → Prop), del x st = .ok st' → x < st.store.n →
+    Range st.store → D sch st.store E →
+    D sch st'.store E ∧ Sub st.store st'.store ∧ Cleared P st.store st'.store ∧ st'.store.alive x = false
+
+/-- the general removal step: if only half links are removed, and a half link that loses its mirror is a reference cell
+    in `E`, then `D` is kept -/
+theorem D.removal {sch : Schema} {s s' : Store} {E : ObjId → Attr → Prop} (hD : D sch s E) (hs : Sub s s')
+    (hmir : ∀ p b q, p < s.n → s'.alive p = true → hasB sch s' p b q = true → hasB sch s q (sch.rev b) p = true →
+        hasB sch s' q (sch.rev b) p = true ∨ (E p b ∧ sch.isCollAttr b = false)) : D sch s' E := by
+  intro p b q hp hal hh
+  rw [hs.n] at hp
+  rcases hD p b q hp (hs.alive p hal) (hs.has hh) with h' | h'
+  · exact hmir p b q hp hal hh h'
+  · exact Or.inr h'
 
 end PonyVerif.Model.Rel
